@@ -21,6 +21,8 @@ pub enum Op {
     WA(usize),
     /// `write_vectored` of n bytes given as three slices (n/3, n/3, rest)
     WV(usize),
+    /// `write!(w, "{}{}", a, b)` (write_fmt with arguments) of n bytes of text
+    WF(usize),
     F,
     /// one poll
     P,
@@ -39,6 +41,7 @@ impl Op {
             Op::W(n) => json!({"write": n}),
             Op::WA(n) => json!({"write_all": n}),
             Op::WV(n) => json!({"write_vectored": n}),
+            Op::WF(n) => json!({"write_fmt": n}),
             Op::F => json!("flush"),
             Op::P => json!("poll"),
             Op::PP => json!("poll_until_pending"),
@@ -64,6 +67,8 @@ impl Op {
             Op::W(n.as_u64().unwrap() as usize)
         } else if let Some(n) = v.get("write_vectored") {
             Op::WV(n.as_u64().unwrap() as usize)
+        } else if let Some(n) = v.get("write_fmt") {
+            Op::WF(n.as_u64().unwrap() as usize)
         } else {
             Op::WA(v["write_all"].as_u64().unwrap() as usize)
         }
@@ -108,6 +113,8 @@ pub struct Config {
     pub payload: Payload,
     /// the consumer presents a different waker at every poll
     pub fresh_wakers: bool,
+    /// every poll runs on a freshly spawned OS thread (serde default: false)
+    pub hop_threads: bool,
 }
 
 impl Config {
@@ -116,7 +123,7 @@ impl Config {
         self.accept.is_some() && self.level > 0
     }
     pub fn to_json(&self) -> serde_json::Value {
-        json!({"chunk_size": self.chunk, "gzip_level": self.level, "accept_encoding": self.accept, "payload": format!("{:?}", self.payload), "fresh_waker_per_poll": self.fresh_wakers})
+        json!({"chunk_size": self.chunk, "gzip_level": self.level, "accept_encoding": self.accept, "payload": format!("{:?}", self.payload), "fresh_waker_per_poll": self.fresh_wakers, "each_poll_on_a_fresh_thread": self.hop_threads})
     }
     pub fn from_json(v: &serde_json::Value) -> Config {
         Config {
@@ -129,6 +136,7 @@ impl Config {
                 _ => Payload::Rand,
             },
             fresh_wakers: v["fresh_waker_per_poll"].as_bool().unwrap_or(false),
+            hop_threads: v["each_poll_on_a_fresh_thread"].as_bool().unwrap_or(false),
         }
     }
 }
@@ -214,7 +222,15 @@ impl Exec {
     /// then overridden by the final `with_chunk_size(cfg.chunk).with_gzip_level(cfg.level)`: only
     /// the last setting of each knob may matter.
     pub fn new_calls(cfg: &Config, method: &str, as_parts: bool, pre: &[Option<u32>]) -> Result<Exec, String> {
+        Exec::new_calls_with(cfg, method, as_parts, pre, &[])
+    }
+
+    /// As `new_calls`, with other request headers next to Accept-Encoding.
+    pub fn new_calls_with(cfg: &Config, method: &str, as_parts: bool, pre: &[Option<u32>], other: &[(&str, &str)]) -> Result<Exec, String> {
         let mut rb = http::Request::builder().method(method).uri("/");
+        for (k, v) in other {
+            rb = rb.header(*k, *v);
+        }
         if let Some(a) = &cfg.accept {
             // a '\n' separates several Accept-Encoding header lines
             for line in a.split('\n') {
@@ -267,6 +283,7 @@ impl Exec {
             p: Some({
                 let mut p = Poller::new(body);
                 p.fresh = cfg.fresh_wakers;
+                p.hop_threads = cfg.hop_threads;
                 p
             }),
             parked: None,
@@ -366,14 +383,23 @@ impl Exec {
         self.write_op_kind(n, if all { 1 } else { 0 })
     }
 
-    /// kind: 0 = write, 1 = write_all, 2 = write_vectored (three slices)
+    /// kind: 0 = write, 1 = write_all, 2 = write_vectored (three slices), 3 = write_fmt
     pub fn write_op_kind(&mut self, n: usize, kind: u8) {
-        let all = kind == 1;
-        let data = self.cfg.payload.slice(self.pos, n);
+        let all = kind == 1 || kind == 3;
+        let mut data = self.cfg.payload.slice(self.pos, n);
+        if kind == 3 {
+            // formatted text: the same positions, mapped into printable ASCII
+            for b in data.iter_mut() {
+                *b = b'a' + *b % 26;
+            }
+        }
         let Some(w) = self.w.as_mut() else { return };
         let was_live = self.term == Term::Live && !self.body_gone && !self.writer_failed;
         let r = catch_unwind(AssertUnwindSafe(|| {
-            if kind == 2 {
+            if kind == 3 {
+                let (a, b) = data.split_at(n / 2);
+                write!(w, "{}{}", std::str::from_utf8(a).unwrap(), std::str::from_utf8(b).unwrap()).map(|_| n)
+            } else if kind == 2 {
                 let (a, rest) = data.split_at(n / 3);
                 let (b, c) = rest.split_at(n / 3);
                 w.write_vectored(&[std::io::IoSlice::new(a), std::io::IoSlice::new(b), std::io::IoSlice::new(c)])
@@ -637,6 +663,10 @@ impl Exec {
                 self.write_op_kind(n, 2);
                 self.check_woken("a write_vectored");
             }
+            Op::WF(n) => {
+                self.write_op_kind(n, 3);
+                self.check_woken("a write!");
+            }
             Op::F => {
                 self.flush_op();
                 self.check_woken("a flush");
@@ -719,6 +749,12 @@ fn dedup_findings(v: Vec<Finding>) -> Vec<Finding> {
 }
 
 pub fn execute(cfg: &Config, ops: &[Op], extra_polls: usize) -> Outcome {
+    let (c2, o2) = (cfg.clone(), ops.to_vec());
+    let case: crate::report::CaseFn = Box::new(move || json!({"engine": "stream_mc", "config": c2.to_json(), "ops": o2.iter().map(|o| o.to_json()).collect::<Vec<_>>(), "extra_polls": extra_polls}));
+    crate::report::watched(case, || execute_inner(cfg, ops, extra_polls))
+}
+
+fn execute_inner(cfg: &Config, ops: &[Op], extra_polls: usize) -> Outcome {
     let mut x = match Exec::new(cfg, "GET") {
         Ok(x) => x,
         Err(m) => {
@@ -840,7 +876,7 @@ fn enabled(prefix: &[Op], op: Op) -> bool {
     let w_gone = prefix.contains(&Op::DW);
     let b_gone = prefix.contains(&Op::DB);
     match op {
-        Op::W(_) | Op::WA(_) | Op::WV(_) | Op::F | Op::FPP | Op::A | Op::DW => {
+        Op::W(_) | Op::WA(_) | Op::WV(_) | Op::WF(_) | Op::F | Op::FPP | Op::A | Op::DW => {
             if w_gone {
                 return false;
             }
@@ -889,8 +925,15 @@ fn report(prop: &str, cfg: &Config, ops: &[Op], extra_polls: usize, o: &Outcome,
             // determinism: the same history must give the same observation again
             let again = execute(cfg, ops, extra_polls);
             if again.repr != o.repr {
-                eprintln!("MACHINERY ERROR: non-deterministic replay of history {ops:?} ({cfg:?})");
-                std::process::exit(2);
+                // The harness is deterministic (on the unchanged tree this never fires), every
+                // history builds its own writer and body: a history whose outcome depends on what
+                // ran before it in this process means the SUBJECT keeps state across bodies (a
+                // pool, a cache, a static). That is reported as the finding it is, not as a
+                // machinery failure.
+                st.violation(order, format!("{}:depends-on-earlier-bodies", f.key), format!("{} -- and re-running the same history in the same process gives another result: streaming_body keeps state between bodies", f.msg), || {
+                    json!({"engine": "stream_mc", "config": cfg.to_json(), "ops": ops.iter().map(|o| o.to_json()).collect::<Vec<_>>(), "extra_polls": extra_polls, "note": "history-dependent: replaying this history alone may not reproduce it"})
+                });
+                return;
             }
             checked = true;
         }
@@ -998,7 +1041,7 @@ pub fn run_c08(run: &mut Run) -> Stats {
             if accept.is_some() && c > 4 {
                 continue;
             }
-            let cfg = Config { chunk: c, level: if accept.is_some() { 0 } else { 6 }, accept: accept.clone(), payload: Payload::Rand, fresh_wakers: false };
+            let cfg = Config { chunk: c, level: if accept.is_some() { 0 } else { 6 }, accept: accept.clone(), payload: Payload::Rand, fresh_wakers: false, hop_threads: false };
             let (st, shallow) = depth_states(&run.prop, &cfg, &|| alphabet(c, true, false, false, None), d, 2);
             sat.push(json!({"chunk": c, "accept_encoding": accept, "depth": d, "histories": st.evaluations, "states_at_depth": st.states.len(), "states_at_depth_minus_1": shallow}));
             total.merge(st);
@@ -1006,7 +1049,7 @@ pub fn run_c08(run: &mut Run) -> Stats {
     }
     // the same histories with a different waker at every poll (the reader's clone_from path)
     for (c, d) in tier.pick(vec![(1usize, 4usize), (2, 4), (4096, 3)], vec![(1, 5), (2, 5), (4, 4), (4096, 4)]) {
-        let cfg = Config { chunk: c, level: 6, accept: None, payload: Payload::Rand, fresh_wakers: true };
+        let cfg = Config { chunk: c, level: 6, accept: None, payload: Payload::Rand, fresh_wakers: true, hop_threads: false };
         let mut sizes = vec![0, 1, c, c + 1];
         sizes.dedup();
         let st = sweep(&run.prop, &cfg, alphabet(c, true, false, false, Some(sizes)), d, 2);
@@ -1027,12 +1070,12 @@ pub fn run_c11_seq(run: &mut Run) -> Stats {
     run.bounds = json!({"chunk_size:depth": plan.iter().map(|(c, d)| format!("{c}:{d}")).collect::<Vec<_>>()});
     let mut total = Stats::new();
     for (c, d) in plan {
-        let cfg = Config { chunk: c, level: 6, accept: None, payload: Payload::Rand, fresh_wakers: c % 2 == 0 };
+        let cfg = Config { chunk: c, level: 6, accept: None, payload: Payload::Rand, fresh_wakers: c % 2 == 0, hop_threads: false };
         total.merge(sweep(&run.prop, &cfg, alphabet(c, false, true, true, None), d, 2));
     }
     // gzip writer
     for (c, level, d) in tier.pick(vec![(7usize, 6u32, 3usize), (1, 1, 3)], vec![(7, 6, 4), (1, 1, 4), (4096, 9, 4)]) {
-        let cfg = Config { chunk: c, level, accept: Some("gzip".into()), payload: Payload::Rand, fresh_wakers: c == 1 };
+        let cfg = Config { chunk: c, level, accept: Some("gzip".into()), payload: Payload::Rand, fresh_wakers: c == 1, hop_threads: false };
         total.merge(sweep(&run.prop, &cfg, alphabet(c, false, true, true, Some(vec![0, 1, 40, 300])), d, 2));
     }
     total.merge(release_check(&run.prop));
@@ -1078,13 +1121,13 @@ pub fn run_c09(run: &mut Run) -> Stats {
                 if *p == Payload::Mixed && !(l == 1 || l == 6 || l == 9) {
                     continue;
                 }
-                cfgs.push((Config { chunk: c, level: l, accept: Some("gzip".into()), payload: *p, fresh_wakers: l % 2 == 0 }, sizes.clone()));
+                cfgs.push((Config { chunk: c, level: l, accept: Some("gzip".into()), payload: *p, fresh_wakers: l % 2 == 0, hop_threads: false }, sizes.clone()));
             }
         }
     }
     for &c in &tier.pick(vec![7usize, 512, 4096, 65536], vec![1, 7, 512, 4096, 16384, 65536]) {
         for &l in &tier.pick(vec![1u32, 6], vec![1, 2, 6, 9]) {
-            cfgs.push((Config { chunk: c, level: l, accept: Some("gzip".into()), payload: Payload::Rand, fresh_wakers: false }, big.clone()));
+            cfgs.push((Config { chunk: c, level: l, accept: Some("gzip".into()), payload: Payload::Rand, fresh_wakers: false, hop_threads: false }, big.clone()));
         }
     }
     run.extra.insert("configs".into(), json!(cfgs.len()));
@@ -1124,7 +1167,7 @@ pub fn run_c09(run: &mut Run) -> Stats {
     let mut total = total;
     total.merge(par_for(ramp.len() as u64, threads(), |i, st| {
         let (level, t) = ramp[i as usize];
-        let cfg = Config { chunk: 4096, level, accept: Some("gzip".into()), payload: Payload::Rand, fresh_wakers: false };
+        let cfg = Config { chunk: 4096, level, accept: Some("gzip".into()), payload: Payload::Rand, fresh_wakers: false, hop_threads: false };
         let mut ops: Vec<Op> = vec![Op::WA(step); t / step];
         ops.push(Op::F);
         ops.push(Op::PP);
@@ -1299,7 +1342,7 @@ pub fn long_runs(prop: &str, tier: Tier, gzip_level: Option<u32>, extra_polls: u
                         Some(l) => (Some("gzip".to_string()), l, if n % 2 == 0 { Payload::Rep } else { Payload::Rand }),
                         None => (None, 6, Payload::Rand),
                     };
-                    let cfg = Config { chunk: c, level, accept, payload, fresh_wakers: c % 2 == 1 };
+                    let cfg = Config { chunk: c, level, accept, payload, fresh_wakers: c % 2 == 1, hop_threads: false };
                     // the same run followed by "flush, poll until Pending, one more byte": with the
                     // writer still alive, everything flushed must come out before a Pending
                     if !u.contains(&Op::PP) && (k <= 10 || k % 16 <= 1 || k >= 64) {
@@ -1346,7 +1389,11 @@ pub fn stream_zoo(prop: &str, tier: Tier) -> Stats {
                     if tier == Tier::Quick && payload == Payload::Rep && (accept.is_none() || level == 0) {
                         continue; // the payload class only matters to the encoder
                     }
-                    cfgs.push(Config { chunk: c, level, accept: accept.map(|s| s.to_string()), payload, fresh_wakers: fresh });
+                    cfgs.push(Config { chunk: c, level, accept: accept.map(|s| s.to_string()), payload, fresh_wakers: fresh, hop_threads: false });
+                    // two chunk sizes also with every poll on a freshly spawned thread
+                    if (c == 2 || c == 4096) && payload == Payload::Rand && (level == 6 || level == 0) {
+                        cfgs.push(Config { chunk: c, level, accept: accept.map(|s| s.to_string()), payload, fresh_wakers: fresh, hop_threads: true });
+                    }
                 }
             }
         }
@@ -1365,6 +1412,7 @@ pub fn stream_zoo(prop: &str, tier: Tier) -> Stats {
             vec![Op::WA(1), Op::WA(s), Op::WA(1), Op::DW],
             vec![Op::WV(s), Op::WV(s), Op::F, Op::WV(3), Op::DW],
             vec![Op::WA(1), Op::WV(s), Op::FPP, Op::WV(0), Op::DW],
+            vec![Op::WF(s), Op::WF(3), Op::FPP, Op::WF(s), Op::DW],
             vec![Op::WA(s), Op::A, Op::P, Op::W(1), Op::F],
             vec![Op::WA(s), Op::FPP, Op::A, Op::F, Op::P],
             vec![Op::P, Op::A],
@@ -1379,7 +1427,7 @@ pub fn stream_zoo(prop: &str, tier: Tier) -> Stats {
     for cfg in &cfgs {
         let c = cfg.chunk;
         let mut sizes = vec![1usize, c.saturating_sub(1).max(1), c, c + 1, 3 * c + 1];
-        if c <= 1000 {
+        if c <= 1000 && !cfg.hop_threads {
             sizes.push(70_001); // far beyond the chunk and the encoder's buffers
         }
         sizes.sort();
@@ -1390,7 +1438,7 @@ pub fn stream_zoo(prop: &str, tier: Tier) -> Stats {
             }
         }
     }
-    par_for(cases.len() as u64, threads(), |i, st| {
+    let mut total = par_for(cases.len() as u64, threads(), |i, st| {
         let (cfg, ops) = &cases[i as usize];
         let o = execute(cfg, ops, 2);
         st.evaluations += 1;
@@ -1404,7 +1452,41 @@ pub fn stream_zoo(prop: &str, tier: Tier) -> Stats {
         st.nontrivial(&(cfg, ops, "zoo"));
         st.count("stream_zoo_histories", 1);
         report(prop, cfg, ops, 2, &o, st, (1 << 54) + i);
-    })
+    });
+    // Histories of TWO bodies in one process: a first body that ends badly (aborted, or dropped by
+    // the consumer, with chunks still unread) and then an ordinary second one, which is judged. A
+    // body must not inherit anything from an earlier one (recycled buffers, cached state).
+    let mut st = Stats::new();
+    let mut k = 0u64;
+    for c in [4usize, 1024, 4096, 65_536] {
+        for first in [vec![Op::WA(2 * c + 1), Op::F, Op::A], vec![Op::WA(2 * c), Op::F, Op::DB, Op::W(1), Op::F], vec![Op::WA(c + 1), Op::F, Op::P, Op::A], vec![Op::WA(3 * c), Op::DW, Op::P, Op::DB]] {
+            for (accept, level) in [(None, 6u32), (Some("gzip"), 6), (Some("gzip"), 1)] {
+                let cfg_a = Config { chunk: c, level: 6, accept: None, payload: Payload::Rand, fresh_wakers: false, hop_threads: false };
+                let cfg_a2 = Config { chunk: c, level: 6, accept: Some("gzip".into()), payload: Payload::Rep, fresh_wakers: false, hop_threads: false };
+                let cfg_b = Config { chunk: c, level, accept: accept.map(|s| s.to_string()), payload: Payload::Rand, fresh_wakers: false, hop_threads: false };
+                let second = vec![Op::WA(300), Op::FPP, Op::WA(c + 7), Op::DW];
+                for a in [&cfg_a, &cfg_a2] {
+                    let _ = execute(a, &first, 1);
+                    let o = execute(&cfg_b, &second, 2);
+                    k += 1;
+                    st.evaluations += 2;
+                    st.nontrivial(&(c, &first, accept, level, a.accept.is_some(), "two-bodies"));
+                    st.count("two_body_histories", 1);
+                    st.outcome(format!("second-body/{}", o.class));
+                    // findings of the second body (its replay, run alone, may not reproduce them)
+                    for f in &o.findings {
+                        if f.props.contains(&prop) {
+                            st.violation((1 << 55) + k, format!("{}:second-body", f.key), format!("{} (second body of the process; the first one was {:?} with chunk size {c})", f.msg, first), || {
+                                json!({"engine": "stream_mc", "config": cfg_b.to_json(), "ops": second.iter().map(|o| o.to_json()).collect::<Vec<_>>(), "extra_polls": 2, "first_body": {"config": a.to_json(), "ops": first.iter().map(|o| o.to_json()).collect::<Vec<_>>()}})
+                            });
+                        }
+                    }
+                }
+            }
+        }
+    }
+    total.merge(st);
+    total
 }
 
 /// Streaming half of C12 / C20: the same history sweeps, reporting only that property's
@@ -1414,17 +1496,17 @@ pub fn run_monitor(prop: &str, tier: Tier, extra_polls: usize) -> Stats {
     let mut total = Stats::new();
     // identity, no abort / body drop (C08 space, one level shallower)
     for (c, d) in tier.pick(vec![(1usize, 4usize), (2, 4), (4, 3), (4096, 3)], vec![(1, 5), (2, 5), (3, 4), (4, 4), (7, 4), (4096, 4)]) {
-        let cfg = Config { chunk: c, level: 6, accept: None, payload: Payload::Rand, fresh_wakers: false };
+        let cfg = Config { chunk: c, level: 6, accept: None, payload: Payload::Rand, fresh_wakers: false, hop_threads: false };
         total.merge(sweep(prop, &cfg, alphabet(c, true, false, false, None), d, extra_polls));
     }
     // with abort and body drop (C11 space)
     for (c, d) in tier.pick(vec![(1usize, 4usize), (2, 4), (4096, 3)], vec![(1, 5), (2, 5), (3, 4), (4096, 4)]) {
-        let cfg = Config { chunk: c, level: 6, accept: None, payload: Payload::Rand, fresh_wakers: false };
+        let cfg = Config { chunk: c, level: 6, accept: None, payload: Payload::Rand, fresh_wakers: false, hop_threads: false };
         total.merge(sweep(prop, &cfg, alphabet(c, false, true, true, None), d, extra_polls));
     }
     // gzip writer (C09 / C11 space)
     for (c, level, d) in tier.pick(vec![(1usize, 6u32, 3usize), (19, 1, 3)], vec![(1, 6, 4), (19, 1, 4), (4096, 9, 4)]) {
-        let cfg = Config { chunk: c, level, accept: Some("gzip".into()), payload: Payload::Rep, fresh_wakers: false };
+        let cfg = Config { chunk: c, level, accept: Some("gzip".into()), payload: Payload::Rep, fresh_wakers: false, hop_threads: false };
         total.merge(sweep(prop, &cfg, alphabet(c, false, true, true, Some(vec![0, 1, 300, 5000])), d, extra_polls));
     }
     total.merge(long_runs(prop, tier, None, extra_polls));
